@@ -448,7 +448,7 @@ def check(case, rec):
     return [Failure(cl, key, case, det) for cl, key, det in problems[:3]]
 
 
-_small = vals.immutables(big=False, surrogates=False, max_leaves=4)
+_small = vals.immutables(big=False, surrogates=True, max_leaves=4)
 
 
 def cases():
